@@ -19,6 +19,15 @@ import (
 type registry struct {
 	stacks map[string]string // Addr() -> structural address
 	conds  map[string]string
+	types  map[string]string // structural address -> Go type of the value as STORED (native, alias, pointer to alias ...)
+}
+
+func (reg *registry) stored(addr []int, v any) any {
+	if reg.types == nil {
+		reg.types = map[string]string{}
+	}
+	reg.types[addrStr(addr)] = fmt.Sprintf("%T", v)
+	return v
 }
 
 func addrStr(a []int) string {
@@ -43,23 +52,27 @@ func buildIndexed(n Node, addr []int, reg *registry) any {
 			m[k] = v
 		}
 		m["e"] = []any{}
+		m["nn"] = false // applied below, after the elements went in
 		s := BuildStack(m)
 		for i, k := range nKids(n, "e") {
 			s.Push(buildIndexed(k, append(append([]int{}, addr...), i+1), reg))
 		}
 		reg.stacks[s.Addr()] = addrStr(addr)
+		if nBool(n, "nn") {
+			s.SetNoNesting(true) // switched on AFTER the elements went in: it concerns future pushes only, never what is reachable
+		}
 		switch nStr(n, "form") {
 		case "alias":
-			return AStack(s)
+			return reg.stored(addr, AStack(s))
 		case "walias":
-			return WStack(s)
+			return reg.stored(addr, WStack(s))
 		case "xalias":
-			return XStack(s)
+			return reg.stored(addr, XStack(s))
 		case "ptr":
 			a := AStack(s)
-			return &a
+			return reg.stored(addr, &a)
 		}
-		return s
+		return reg.stored(addr, s)
 	case "cnd":
 		m := Node{}
 		for k, v := range n {
@@ -73,16 +86,16 @@ func buildIndexed(n Node, addr []int, reg *registry) any {
 		reg.conds[c.Addr()] = addrStr(addr)
 		switch nStr(n, "form") {
 		case "alias":
-			return ACond(c)
+			return reg.stored(addr, ACond(c))
 		case "walias":
-			return WCond(c)
+			return reg.stored(addr, WCond(c))
 		case "xalias":
-			return XCond(c)
+			return reg.stored(addr, XCond(c))
 		case "ptr":
 			a := ACond(c)
-			return &a
+			return reg.stored(addr, &a)
 		}
-		return c
+		return reg.stored(addr, c)
 	}
 	return nil
 }
@@ -150,20 +163,24 @@ func init() {
 			func() {
 				defer func() {
 					if r := recover(); r != nil {
-						res = map[string]any{"ok": "PANIC: " + fmt.Sprint(r), "addr": []int{}}
+						res = map[string]any{"ok": false, "addr": []int{}, "note": "PANIC: " + fmt.Sprint(r)}
 					}
 				}()
 				v, ok := root.Traverse(intsOf(p)...)
-				res = map[string]any{"ok": ok, "addr": []int{}}
+				res = map[string]any{"ok": ok, "addr": []int{}, "note": ""}
 				if ok {
 					a := reg.project(v)
 					if strings.HasPrefix(a, "<") {
-						res["addr"] = []any{a}
+						res["note"] = a
+					} else if want, ok := reg.types[a]; ok && want != fmt.Sprintf("%T", v) {
+						// Traverse hands out the element as STORED (what Index gives), not a converted copy of it
+						res["addr"] = parseAddr(a)
+						res["note"] = fmt.Sprintf("value at %s has type %T, stored as %s", a, v, want)
 					} else {
 						res["addr"] = parseAddr(a)
 					}
 				} else if v != nil && !reflect.ValueOf(v).IsZero() {
-					res["addr"] = []any{"non-nil value with ok=false"}
+					res["note"] = "non-nil value with ok=false"
 				}
 			}()
 			out = append(out, res)
@@ -190,7 +207,7 @@ func init() {
 func (g *treeGen) travStack(depth int) Node {
 	n := Node{"t": "stk", "k": []string{"AND", "OR", "NOT", "LIST", "BASIC"}[g.rng.Intn(5)], "form": "native", "paren": false, "fold": false,
 		"nspad": false, "lonce": false, "sym": []any{}, "delim": []any{}, "enc": []any{}, "neg": g.rng.Intn(2) == 0, "fwd": g.rng.Intn(2) == 0,
-		"mtx": false, "cap": 0}
+		"mtx": false, "cap": 0, "nn": g.rng.Intn(3) == 0}
 	w := g.rng.Intn(5)
 	kids := []any{}
 	for i := 0; i < w; i++ {
